@@ -277,10 +277,16 @@ def run_diff(case, res):
 
 
 def run_case(case):
+    from ..refterm import StreamExhausted
+
     res = Res()
     if case["kind"] == "pos":
         return run_pos(case, res)
-    return run_diff(case, res)
+    try:
+        return run_diff(case, res)
+    except StreamExhausted as e:
+        res.viol("blocks_reading_a_report_the_terminal_never_sent", detail=str(e), case=case)
+        return res
 
 
 FRAGS = ["a", "q", "\n", " ", "1", "23", ";", "R", "[", "\x1b", "\x1b[", "\x1b[12;", "\x1b[1;2", "\x1b[A", "\x1b[1;5C", "\x1bOP", "\x1b[6n",
